@@ -168,6 +168,17 @@ class NPFacade:
     def atleast_1d(self, a):
         return np.atleast_1d(a)
 
+    def isfinite(self, a, *args, **kw):
+        if isinstance(a, (SymReal, SymBool)):
+            return True
+        if isinstance(a, np.ndarray) and a.dtype == object:
+            flat = np.asarray(a).view(np.ndarray).reshape(-1)
+            vals = [True if isinstance(x, (SymReal, SymBool)) else bool(np.isfinite(x)) for x in flat]
+            if a.shape == ():
+                return vals[0]
+            return np.array(vals, dtype=bool).reshape(a.shape)
+        return np.isfinite(a, *args, **kw)
+
     def isclose(self, a, b, rtol=1e-05, atol=1e-08, equal_nan=False):
         if isinstance(a, SymReal) or isinstance(b, SymReal):
             a, b = symx.wrap(a), symx.wrap(b)
